@@ -69,6 +69,7 @@ class Monitors(Listener):
         self.rowcheck = 0
         self.blocks = 0
         self.tier_moves = 0
+        self.max_hot_used = Fraction(0)
         self.kinds = {}
         self.pre = None
         self.feat = {"contention": 0, "reservation": 0, "fractional": 0,
@@ -119,6 +120,20 @@ class Monitors(Listener):
             setattr(cls, name, orig)
         self._patched = []
         self.final_checks(rec)
+        try:
+            sim = self.sim
+            hot, cold = sim.buffer.hot[0], sim.buffer.cold[0]
+            rec["final_state"] = {
+                "cold_stored": [o.name for o in cold.observations["stored"]],
+                "hot_stored": [o.name for o in hot.observations["stored"]],
+                "hot_over_threshold": bool(sim.buffer.check_buffer_over_data_threshold(0)),
+                "queue": [o.name for o in sim.scheduler.observation_queue],
+                "obs": [(o.name, str(o.status.value)) for o in sim.instrument.observations],
+                "running": len(sim.cluster._clusters["default"]["tasks"]["running"]),
+                "provision_ingest": sim.scheduler.provision_ingest,
+            }
+        except Exception as e:   # noqa
+            rec["final_state"] = {"error": repr(e)}
         rec["violations"] = self.v
         rec["features"] = self.feat
         rec["blocks"] = self.blocks
@@ -334,6 +349,10 @@ class Monitors(Listener):
                 h.append(s)
         # C07 bounds + accounting
         hot, cold = sim.buffer.hot[0], sim.buffer.cold[0]
+        if hot.total_capacity:
+            fracn = Fraction(hot.total_capacity - hot.current_capacity) / Fraction(hot.total_capacity)
+            if fracn > self.max_hot_used:
+                self.max_hot_used = fracn
         if hot.current_capacity < 0 or hot.current_capacity > hot.total_capacity:
             # K3 predicate: the volumes of the observations admitted and not yet removed exceed the capacity
             committed = sum(o.ingest_data_rate * o.duration for o in tel.observations
@@ -542,6 +561,16 @@ class Monitors(Listener):
             self.check_on_time(rec)
             self.check_events(rec)
             self.check_delay_status(rec)
+        elif rec["exception"] is None and not rec.get("nonterminated"):
+            # a paused / partial run: hand-over completeness can still be judged
+            self.check_log_vs_emitted(rec)
+        out = rec.get("out")
+        if out is not None and rec["exception"] is None:
+            for tid, tr in out.get("task_truth", {}).items():
+                row = out["tasks"].get(tid)
+                if row is None or row["ast"] != tr["ast"] or row["aft"] != tr["aft"]:
+                    self.viol("C04", "task-table-row-wrong", "%s table %s truth %s" % (tid, row, tr))
+                    self.viol("C11", "task-table-row-wrong", "%s table %s truth %s" % (tid, row, tr))
         # C12 row count
         out = rec.get("out")
         if out is not None and rec["exception"] is None:
@@ -582,7 +611,7 @@ class Monitors(Listener):
                 and vol < hot.total_capacity and vol <= cold.total_capacity)
 
     # ------------------------------------------------------------------ C13
-    def check_events(self, rec):
+    def check_log_vs_emitted(self, rec):
         out = rec.get("out")
         if out is None:
             return
@@ -596,6 +625,13 @@ class Monitors(Listener):
             dup = len(logged) != len(set(logged)) and not extra
             self.viol("C13", "log-differs-from-emitted",
                       "missing %s extra %s duplicates %s" % (missing[:4], extra[:4], dup))
+
+    def check_events(self, rec):
+        out = rec.get("out")
+        if out is None:
+            return
+        log = [tuple(e) for e in out["events"]]
+        self.check_log_vs_emitted(rec)
         tel = self.sim.instrument
         for o in tel.observations:
             evs = [e for e in log if e[2] == o.name]
